@@ -1,5 +1,6 @@
 """C07 -- XML export is well-formed (partial): context-sensitive escaping (R1),
-tag balance (R2), namespace re-declaration rule (R3).  Round-trip equality
+tag balance (R2), namespace re-declaration rule (R3), output coverage on every
+return path (R4).  Round-trip equality
 needs a parser run and is not decided."""
 from __future__ import annotations
 
@@ -119,13 +120,99 @@ def rule_r3(ctx, rep):
     rep.floor("calls of the re-declaration helper", 1)
 
 
+REQUIRED = {"metapype.model.metapype_io.to_xml": {"_name", "_attributes", "_extras", "_nsmap", "_content", "_tail", "_children"},
+            "metapype.eml.export.to_xml": {"_name", "_attributes", "_content", "_children"}}
+
+
+def rule_r4(ctx, rep):
+    """output coverage: on every return path of an exporter the returned text derives from every field the exporter serialises,
+    unless the path is taken only under a test of that very field (e.g. no content and no children -> empty-element tag)"""
+    from ..condeval import enclosing_ifs
+    prog = ctx.prog
+    nm = ctx.world.nm
+    for q in EXPORTERS:
+        fi = prog.func(q)
+        nodep = fi.params[0]
+
+        def fields_of(e):
+            out = set()
+            for n in ast.walk(e):
+                if isinstance(n, ast.Attribute) and isinstance(n.value, ast.Name) and n.value.id == nodep:
+                    f = nm.canon(n.attr)
+                    if f:
+                        out.add(f)
+            return out
+        # flow-insensitive dependences of every local on the node's fields
+        deps = {}
+
+        def dep_of(e):
+            out = fields_of(e)
+            for n in ast.walk(e):
+                if isinstance(n, ast.Name) and n.id in deps:
+                    out |= deps[n.id]
+            return out
+
+        def bind(t, d):
+            ch = False
+            for n in ast.walk(t):
+                if isinstance(n, ast.Name) and isinstance(n.ctx, ast.Store):
+                    if not d <= deps.get(n.id, set()):
+                        deps.setdefault(n.id, set()).update(d)
+                        ch = True
+            return ch
+        for _ in range(8):
+            changed = False
+            for n in ast.walk(fi.node):
+                if isinstance(n, ast.Assign):
+                    d = dep_of(n.value)
+                    for t in n.targets:
+                        changed |= bind(t, d)
+                elif isinstance(n, ast.AugAssign):
+                    changed |= bind(n.target, dep_of(n.value))
+                elif isinstance(n, (ast.For, ast.comprehension)):
+                    changed |= bind(n.target, dep_of(n.iter))
+                elif isinstance(n, ast.Call) and isinstance(n.func, ast.Attribute) and isinstance(n.func.value, ast.Name) \
+                        and n.func.attr in ("append", "extend", "insert", "write", "add", "update"):
+                    d = set()
+                    for a in n.args:
+                        d |= dep_of(a)
+                    if d and not d <= deps.get(n.func.value.id, set()):
+                        deps.setdefault(n.func.value.id, set()).update(d)
+                        changed = True
+            if not changed:
+                break
+        rets = [n for n in ast.walk(fi.node) if isinstance(n, ast.Return) and n.value is not None]
+        if not rets:
+            raise AnalysisError(f"anchor vanished: {q} returns nothing")
+        union = set()
+        per = []
+        for r in rets:
+            d = dep_of(r.value)
+            per.append((r, d))
+            union |= d
+        missing_all = REQUIRED[q] - union
+        rep.count("exporter return paths", len(rets))
+        for f in sorted(missing_all):
+            rep.oblige(("R4", q, "emits", f), False)
+            rep.add("R4", fi.qname, f"node.{f[1:]}", f"the exporter's output never depends on the node's {f[1:]}: it cannot parse back to the same tree", fi.loc())
+        for (r, d) in per:
+            for f in sorted((REQUIRED[q] & union) - d):
+                guards = enclosing_ifs(fi, r)
+                excused = any(f in fields_of(g.test) for (g, _b) in guards)
+                rep.oblige(("R4", q, f, getattr(r, "lineno", 0)), excused)
+                if not excused:
+                    rep.add("R4", fi.qname, r, f"this return path leaves out the node's {f[1:]} although the path is not taken under a test of "
+                            f"{f[1:]}: a node with {f[1:]} set loses it in the exported document", fi.loc(r))
+    rep.floor("exporter return paths", 2)
+
+
 def run(ctx, rep):
     rep.explanation = (
         "flow-sensitive taint analysis of both XML exporters: every piece of node data (content, tail, attribute / qualified-"
         "attribute values, namespace URIs) interpolated into the returned string is checked against the context computed from the "
         "constant text in front of it (text vs attribute value) and must carry the sanitiser of that context; tag names of open / "
         "empty / close tags are one unchanged variable; the re-declaration helper is constant-folded on representative map pairs")
-    rep.rules_run = ["R1", "R2", "R3"]
+    rep.rules_run = ["R1", "R2", "R3", "R4", "R5"]
     rep.assumptions += ["NOT decided: parse-back equality (needs a parser run)",
                         "element names and prefixes are XML-legal (the property's quantifier)",
                         "for the EML exporter, content holding pre-escaped entity spellings or inline para tags is outside the quantifier "
@@ -135,3 +222,10 @@ def run(ctx, rep):
         rule_r1_r2(ctx, rep)
     if only in (None, "R3"):
         rule_r3(ctx, rep)
+    if only in (None, "R4"):
+        rule_r4(ctx, rep)
+    if only in (None, "R5"):
+        from ..memo import check_slice
+        from ..valslice import reachable
+        sl = [f for f in reachable(ctx, [ctx.prog.func(q) for q in EXPORTERS]) if not f.module.name.endswith(".node")]
+        check_slice(ctx, rep, "R5", sl, "XML export")
